@@ -14,7 +14,8 @@ package sysgen
 //	            place; a call statement `func() {..}()` (no parameters, return, defer) -> its body
 //	locals      `v := e` (e without calls other than len / cap) used only in the condition of
 //	            the statement that follows (or in the next such definition) -> e substituted;
-//	            `if v := e; cond(v)` likewise; `(&x).f` -> `x.f`, `(x)` -> `x`
+//	            `if v := e; cond(v)` likewise; `v := CALL; x.m(a, v)` -> `x.m(a, CALL)` (a simple);
+//	            `(&x).f` -> `x.f`, `(x)` -> `x`; n += 1, n = n + 1 -> n++
 //	loops       `for { x, ok := <-c; if !ok { break }; .. }` -> `for x := range c { .. }`;
 //	            `for i := 0; i < len(X); i++` -> `for i := range X`;
 //	            `for i := range X { .. X[i] .. }` -> `for i, t := range X { .. t .. }`
@@ -25,12 +26,17 @@ package sysgen
 //	              if err != nil {H; return} else {B}; R -> if err != nil {H; return}; B; R
 //	              if err != nil {H} else {B}   (tail)   -> if err != nil {H; return}; B
 //	              if err != nil {H}            (tail)   -> if err != nil {H; return}
+//	              if err != nil {H} else {B}; R (tail)  -> if err != nil {H; R; return}; B; R
 //	            other tests take the single-exit form
 //	              if c {A; return}; R                   -> if c {A; return} else {R}
 //	              if c {A; S} else {B; S}               -> if c {A} else {B}; S
 //	              if c {} else {B}                      -> if !c {B}   (!(len(x) < n) is len(x) >= n)
 //
-// Helper inlining (sysgen.go: expand) runs between exprCalls and locals; it uses `control` on the
+//	undefer     (drivers, buffer methods) top-level `defer CALL` -> CALL before every return that
+//	            follows and at the end, last deferred first; only where every return carries
+//	            constants (a deferred call runs AFTER the operands of return are evaluated)
+//
+// Helper inlining (sysgen.go: expand) runs between exprCalls and locals; it uses singleExit on the
 // callee's body when the call is not in tail position (early returns of the callee must become
 // else-branches before the body can stand in the middle of the caller).
 
@@ -841,10 +847,6 @@ func negate(c ast.Expr) ast.Expr {
 		}
 	}
 	return &ast.UnaryExpr{Op: token.NOT, X: &ast.ParenExpr{X: c}}
-}
-
-type normalizer struct {
-	p *pkg
 }
 
 // control normalises a statement list.  tail: falling off the end of the list returns from a
